@@ -20,8 +20,9 @@ package stream
 //@ ensures.dirty[C05] moves && dirty ==> stored(s.dirtyOffsets, vbID, true)
 //@ ensures.clean[C14] !dirty ==> unchanged(s.dirtyOffsets)
 //@ ensures.dirtyframe[C04,C05] unchanged(s.dirtyOffsets) || stored(s.dirtyOffsets, vbID, true)
-//@ ensures.flag s.anyDirtyOffset == old(s.anyDirtyOffset)
-//@ modifies content(s.offsets), content(s.dirtyOffsets), calls(models.Consumer.TrackOffset)
+//@ ensures.flag[C05] moves && dirty ==> s.anyDirtyOffset == true
+//@ ensures.flagframe[C05,C14] s.anyDirtyOffset == old(s.anyDirtyOffset) || (s.anyDirtyOffset == true && dirty && inr && !(has0 && curSeq > offset.SeqNo))
+//@ modifies content(s.offsets), content(s.dirtyOffsets), s.anyDirtyOffset, calls(models.Consumer.TrackOffset)
 
 //@ func (*vBucketDiscovery).Get
 //@ props C09 C16
